@@ -5,10 +5,85 @@ fn usage() -> ! {
     std::process::exit(2)
 }
 
+/// `run` and `replay` execute in a child of this process: a library call that takes the whole process down
+/// (stack overflow, abort, kill by the kernel) cannot be caught inside it, so the parent looks at how the
+/// child ended.  The child leaves the input of every library call in a breadcrumb file while the call runs.
+/// Death by signal while C08 is being checked is a violation of C08 (reported with the input, after each
+/// candidate input has been tried once more in a child of its own); while another property is being checked
+/// it means that check could not decide (exit 2): the crash is C08's business.
+fn supervise(args: &[String]) -> ! {
+    use std::os::unix::process::ExitStatusExt;
+    let prop = args[2].clone();
+    let crumbs = jpv::engine::verif_dir().join(".crumbs").join(std::process::id().to_string());
+    let _ = std::fs::remove_dir_all(&crumbs);
+    let _ = std::fs::create_dir_all(&crumbs);
+    let exe = std::env::current_exe().unwrap_or_default();
+    let status = std::process::Command::new(&exe).args(&args[1..]).env("JPV_INNER", "1").env("JPV_CRUMBS", &crumbs).status();
+    let status = match status {
+        Ok(s) => s,
+        Err(e) => {
+            eprintln!("cannot start the worker process: {}", e);
+            std::process::exit(2)
+        }
+    };
+    if let Some(code) = status.code() {
+        let _ = std::fs::remove_dir_all(&crumbs);
+        std::process::exit(code)
+    }
+    let sig = status.signal().unwrap_or(0);
+    let candidates = jpv::engine::read_crumbs(&crumbs);
+    let _ = std::fs::remove_dir_all(&crumbs);
+    eprintln!("the worker process was killed by signal {} while {} was being checked; {} library call(s) were in flight", sig, prop, candidates.len());
+    // which of the inputs in flight does it again, alone, in a fresh process?
+    let mut culprit: Option<(serde_json::Value, String)> = None;
+    let mut first: Option<(serde_json::Value, String)> = None;
+    for c in &candidates {
+        let f = jpv::engine::Failure::new(format!("the process is killed by signal {} (stack overflow, abort or out of memory) inside a library call", sig), c.clone());
+        let path = jpv::engine::write_replay("C08", "abort", 0, None, &f);
+        if first.is_none() {
+            first = Some((c.clone(), path.clone()));
+        }
+        let again = std::process::Command::new(&exe).args(["replay", "C08", &path]).env("JPV_INNER", "1").stdout(std::process::Stdio::null()).stderr(std::process::Stdio::null()).status();
+        if let Ok(st) = again {
+            if st.code().is_none() {
+                culprit = Some((c.clone(), path));
+                break;
+            }
+        }
+    }
+    let reproduced = culprit.is_some();
+    let shown = culprit.or(first);
+    if prop == "C08" {
+        let path = match &shown {
+            Some((_, p)) => p.clone(),
+            None => {
+                let f = jpv::engine::Failure::new(format!("the process is killed by signal {} during the check; no library call had left its input (the call is one that goes around the harness' call wrapper)", sig), serde_json::json!({"arguments": args[1..]}));
+                jpv::engine::write_replay("C08", "abort", 0, None, &f)
+            }
+        };
+        println!("VIOLATION property=C08 replay={}", path);
+        eprintln!("  the process was killed by signal {} (stack overflow, abort or out of memory) inside a library call{}", sig, if reproduced { "; the saved input does it again on its own" } else { "; no single input in flight reproduced it on its own (saved: the first one)" });
+        if let Some((c, _)) = &shown {
+            let t = c.to_string();
+            eprintln!("  case: {}", if t.len() > 2000 { format!("{}...", &t[..2000]) } else { t });
+        }
+        std::process::exit(1)
+    }
+    if let Some((c, p)) = &shown {
+        let t = c.to_string();
+        eprintln!("  input in flight{}: {}  (saved as a C08 replay: {})", if reproduced { " (kills a fresh process too)" } else { "" }, if t.len() > 600 { format!("{}...", &t[..600]) } else { t }, p);
+    }
+    eprintln!("{} could not be decided: the library took the process down; that is a matter for C08", prop);
+    std::process::exit(2)
+}
+
 fn main() {
     let args: Vec<String> = std::env::args().collect();
     if args.len() < 2 {
         usage();
+    }
+    if (args[1] == "run" || args[1] == "replay") && args.len() >= 3 && std::env::var("JPV_INNER").is_err() {
+        supervise(&args);
     }
     let props = jpv::props::all();
     let find = |id: &str| props.iter().find(|p| p.id == id);
